@@ -36,9 +36,57 @@ def sibling_histories(seed, n):
     return out
 
 
+def cross_extension_histories(seed, n):
+    """The same bytes committed under different EXTENSIONS (model.bin and its backup model.bak, data.csv / data.txt / data):
+    the objects share the digest directory `.xvc/<algo>/<3>/<3>/<58>/` and differ in the file name `0.<ext>`.  Tracked in one
+    command and in two, with every recheck method, serially and in parallel, as first and as later versions; and the state a
+    command that failed or was killed between mkdir and rename leaves behind: the digest directory exists and is EMPTY (an
+    empty directory is not an object).  Every committed path is then deleted and rechecked, one by one and together: each one
+    yields the committed bytes (the restore probe does the same in a copy after the last command)."""
+    rng = random.Random(f'c01-cross-extension-{seed}')
+    out = []
+    methods = ['copy', 'symlink', 'hardlink', 'reflink']
+    for i in range(n):
+        m = methods[i % 4]
+        serial = (i // 4) % 2 == 0
+        shape = ['one-command', 'two-commands', 'carry-in', 'empty-dir', 'three-extensions', 'empty-dir-carry-in'][(i // 8 + i) % 6]
+        cfg = {'algo': (i + seed) % 4, 'method': rng.choice(['copy', m]), 'tob': rng.choice(['auto', 'auto', 'binary', 'text'])}
+        d = rng.choice(['', 'd/', 'ünï/'])
+        stem = rng.choice(['model', 'data', 'x y'])
+        e1, e2, e3 = rng.sample(['bin', 'bak', 'csv', 'txt', 'dat', 'OLD'], 3)
+        p1, p2, p3 = f'{d}{stem}.{e1}', f'{d}{stem}.{e2}', rng.choice([f'{d}{stem}', f'{d}{stem}.{e3}', f'other/{stem}.{e3}'])
+        X = bytes(f'{stem}-{i}-{seed}\n', 'utf8') + bytes(rng.choice(b'abcdefgh\n') for _ in range(rng.choice([0, 40, 9000]))) + rng.choice([b'', b'\x00\x01\x02'])
+        np_ = lambda: serial
+        opt = lambda: {'method': m} if cfg['method'] != m or rng.random() < 0.5 else {}
+        if shape == 'one-command':
+            h, ps = [W(p1, X), W(p2, X), T([p1, p2], no_parallel=np_(), **opt())], [p1, p2]
+        elif shape == 'two-commands':
+            h, ps = [W(p1, X), T([p1], no_parallel=np_(), **opt()), W(p2, X), T([p2], no_parallel=np_(), **opt())], [p1, p2]
+        elif shape == 'three-extensions':
+            h, ps = [W(p1, X), W(p2, X), W(p3, X), T([p1], no_parallel=np_(), **opt()), T([p3, p2], no_parallel=np_(), **opt())], [p1, p2, p3]
+        elif shape == 'carry-in':
+            # the shared content arrives as a LATER version of the second path
+            h = [W(p1, X), W(p2, X + b'first version\n'), T([p1, p2], no_parallel=np_(), **opt()), W(p2, X), CI([p2], no_parallel=np_())]
+            ps = [p1, p2]
+        elif shape == 'empty-dir':
+            h, ps = [W(p1, X), {'op': 'emptydir', 'path': p1}, T([p1], no_parallel=np_(), **opt())], [p1]
+        else:
+            h = [W(p1, X + b'v1\n'), T([p1], no_parallel=np_(), **opt()), W(p1, X), {'op': 'emptydir', 'path': p1}, CI([p1], no_parallel=np_())]
+            ps = [p1]
+        for p in ps:
+            h += [{'op': 'delete', 'path': p}, RC([p], no_parallel=np_())]
+        h += [{'op': 'delete', 'path': p} for p in ps] + [RC(ps, no_parallel=np_(), method=rng.choice([None, None] + methods))]
+        out.append((f'cross-extension-{shape}-{m}-{"serial" if serial else "parallel"}-{i}', cfg, h))
+    return out
+
+
+def extra_corpus(chk):
+    quick = chk.tier == 'quick'
+    return sibling_histories(chk.seed, 30 if quick else 300) + cross_extension_histories(chk.seed, 24 if quick else 240)
+
+
 def run(chk):
-    n = 30 if chk.tier == 'quick' else 300
-    return rc.run_property(chk, 'C01', ORACLES, restore=RESTORE, nq=250, extra_corpus=sibling_histories(chk.seed, n), extra_props=['XvcRepo.Props.C01Cmd'])
+    return rc.run_property(chk, 'C01', ORACLES, restore=RESTORE, nq=250, extra_corpus=extra_corpus(chk), extra_props=['XvcRepo.Props.C01Cmd'])
 
 
 def replay(chk, data):
